@@ -130,6 +130,62 @@ class C13Executor(SymListMixin, ET.ETreeMixin, Executor):
             return VStr(PYSTR_TD(v.t))
         return super().to_str(st, v, formatted)
 
+    # ---- list.sort on a list of CONCRETE length whose sort keys are concrete: the real (stable) order; an order comparison that
+    # reaches a non-orderable value (e.g. two Elements after equal (y, x)) raises TypeError as CPython does
+    def list_method(self, st, obj, name, args, kwargs, node):
+        o = st.obj(obj.ref)
+        if name == "sort" and o.kind == "list" and o.data is not None and not args and set(kwargs) <= {"key", "reverse"}:
+            from fractions import Fraction
+
+            class _NoOrder:
+                def __lt__(self, other):
+                    raise TypeError("'<' not supported")
+                __gt__ = __le__ = __ge__ = __lt__
+
+                def __eq__(self, other):
+                    return self is other
+                __hash__ = object.__hash__
+
+            def key_of(v):
+                if isinstance(v, (VInt, VStr, VBool)):
+                    c = v.const()
+                    return c if c is not None else None
+                if isinstance(v, VReal):
+                    t = z3.simplify(v.t)
+                    return Fraction(t.numerator_as_long(), t.denominator_as_long()) if z3.is_rational_value(t) else None
+                if isinstance(v, VTuple):
+                    ks = [key_of(x) for x in v.items]
+                    return None if any(k is None for k in ks) else tuple(ks)
+                if isinstance(v, (VExt, VRef)) or v is NONE:
+                    return _NoOrder()
+                return None
+            keys, cur = [], st
+            for item in o.data:
+                kv = item
+                if "key" in kwargs:
+                    r = self.call(cur, kwargs["key"], [item], {}, node)
+                    if len(r) != 1:
+                        keys = None
+                        break
+                    cur, kv = r[0]
+                k = key_of(kv)
+                if k is None:
+                    keys = None
+                    break
+                keys.append(k)
+            rev = kwargs.get("reverse")
+            if keys is not None and (rev is None or (isinstance(rev, VBool) and rev.const() is not None)):
+                try:
+                    order = sorted(range(len(keys)), key=lambda i: keys[i], reverse=bool(rev.const()) if rev is not None else False)
+                except TypeError:
+                    self.raise_in(cur, self.mk_exc("TypeError"))
+                    return []
+                self._check_not_frozen(cur, obj.ref, node)
+                self.note_store(cur, obj.ref, node)
+                cur.wobj(obj.ref).data = [o.data[i] for i in order]
+                return [(cur, NONE)]
+        return super().list_method(st, obj, name, args, kwargs, node)
+
     # ---- exact %-formatting / str.format for integer and string fields; anything else is an over-approximation
     def _fmt_field(self, st, v, spec):
         """text of one field for spec '' | 'd' | '0Nd' | 's' (None = not modelled)"""
@@ -1227,7 +1283,7 @@ def call_sites(repo, tier):
 
 
 SPLIT = {"w_xlsx": 5, "w_epub": 2, "w_html": 2, "w_xls": 2}     # long walkers are split over the process pool (same obligation ids, merged)
-EXTRA = [_walker_job(w, k, SPLIT.get(w, 1)) for w in ("w_xlsx", "w_epub", "w_html", "w_xls", "w_ods", "w_docx", "w_odt", "w_odp", "w_pptx", "w_iter", "w_rtf")
+EXTRA = [_walker_job(w, k, SPLIT.get(w, 1)) for w in ("w_xlsx", "w_epub", "w_html", "w_xls", "w_ods", "w_docx", "w_odt", "w_odp", "w_odp_slide", "w_pptx", "w_iter", "w_rtf")
          for k in range(SPLIT.get(w, 1))] + [model_invariants, call_sites]
 
 
